@@ -38,7 +38,7 @@ FAMILIES = ("smooth", "equal", "cxgap")
 Z_QUICK = (1, 2, 6, 10, 18)
 Z_THOROUGH = tuple(range(1, 19))
 GROUPS = ("scalar", "repr-fractional", "repr-elementdensity", "repr-neutrality", "interp1d", "interp2d", "equilibrium")
-REPS = ("array1d", "array1d-len1", "array2d", "func1d+fv-scalar", "func1d+fv-array", "func1d+fv-intarray", "pyfunc1d+fv-array",
+REPS = ("array1d", "array1d-len1", "array2d", "array2d-fortran", "func1d+fv-scalar", "func1d+fv-array", "func1d+fv-intarray", "pyfunc1d+fv-array",
         "scalar+func1d+fv-scalar", "func2d+fv-tuple", "pyfunc2d+fv-list", "mixed1d", "mixed2d")
 SPECIES = ("none", "one", "two", "full", "exceed")
 CORE = ("fractional_abundance", "from_elementdensity", "match_plasma_neutrality")
@@ -482,6 +482,8 @@ def as_kind(kind, vals, k0=None):
         return np.array([vals[k0]])
     if kind == "arr2":
         return np.array(vals).reshape(len(NE), nj)
+    if kind == "arr2f":
+        return np.asfortranarray(np.array(vals).reshape(len(NE), nj))
     if kind == "f1i":
         return Interpolator1DArray(np.array(X1), np.array(vals), "linear", "none", 0)
     if kind == "f1p":
@@ -509,6 +511,7 @@ def rep_spec(rep):
         "array1d": ("arr1", "arr1", "arr1", "arr1", none, (12,), allk),
         "array1d-len1": ("arr1-len1", "arr1-len1", "arr1-len1", "arr1-len1", none, (1,), [K0]),
         "array2d": ("arr2", "arr2", "arr2", "arr2", none, (3, 4), allk),
+        "array2d-fortran": ("arr2f", "arr2f", "arr2f", "arr2f", none, (3, 4), allk),      # the same numbers in column-major memory order
         "func1d+fv-scalar": ("f1i", "f1i", "f1i", "f1i", lambda: X1[K0], (1,), [K0]),
         "func1d+fv-array": ("f1i", "f1i", "f1i", "f1i", fv1, (12,), allk),
         "func1d+fv-intarray": ("f1i", "f1i", "f1i", "f1i", lambda: np.arange(len(X1)), (12,), allk),      # positions given as an integer array
